@@ -46,6 +46,9 @@ CRAFTED = {
     # components that reach a derived type through INCLUDE (the outline of the including file)
     "comps_inc.f90": "! c\n" * 10 + "integer :: ncomp\n",
     "type_inc.f90": "module mti\n  type tinc\n    include 'comps_inc.f90'\n  end type tinc\nend module mti\n",
+    # parenthesis levels that begin with `%`: the legacy %VAL/%REF/%LOC built-ins as first actual argument, stray `%`
+    "pct.f90": "subroutine spct(n, buf)\n  integer :: n, buf(3)\n  call c_send(%val(n), buf)\n  call c_send(%ref(buf(1)), %loc(n))\n"
+               "  n = buf(%val(1))\n  buf = [%val(n), 1, 2]\n%n = 1\n  % n\n  call (%n)\nend subroutine spct\n",
     "odd.f90": "subroutine &\n  & s(a, &\n  b)\n  character(len=*) :: a, b ! tail\n  a = 'it''s' // \"q\" ; b = a\n  if (a == b) then ; end if\nend subroutine s\n!> doc\n\n",
 }
 
